@@ -49,6 +49,24 @@ import (
 // well read them)
 const maxPostHandlerReadBytes = 256 << 10
 
+// discardRequestBody reads and discards up to limit bytes of a request body
+// that the handler has not consumed. The handler may have left another reader
+// behind (the backend transport goes on copying the body after a backend has
+// answered early): where the body supports it, discarding and closing is one
+// step for that reader, so that it can neither lose bytes in between nor take
+// the end of the discarded body for the end of the body.
+func discardRequestBody(body io.ReadCloser, limit int64) (int64, error) {
+	if ecr, ok := body.(*expectContinueReader); ok {
+		body = ecr.readCloser
+	}
+	if d, ok := body.(interface {
+		DrainAndClose(limit int64) (int64, error)
+	}); ok {
+		return d.DrainAndClose(limit)
+	}
+	return io.CopyN(ioutil.Discard, body, limit)
+}
+
 // extraHeader is the set of headers sometimes added by chunkWriter.writeHeader.
 // This type is used to avoid extra allocations from cloning and/or populating
 // the response Header map and all its 1-element slices.
@@ -351,7 +369,7 @@ func (cw *chunkWriter) writeHeader(p []byte) {
 	if w.req.ContentLength != 0 && !w.closeAfterReply {
 		ecr, isExpecter := w.req.Body.(*expectContinueReader)
 		if !isExpecter || ecr.WroteContinue() {
-			n, err := io.CopyN(ioutil.Discard, w.req.Body, maxPostHandlerReadBytes+1)
+			n, err := discardRequestBody(w.req.Body, maxPostHandlerReadBytes+1)
 			if n >= maxPostHandlerReadBytes {
 				w.requestTooLarge()
 				delHeader("Connection")
